@@ -50,6 +50,9 @@ CHECKS = {
  "C23": ("exploration", "AST-equivalence monitor over the real parser/checker/unparser (+ cmd/mfmt binary in thorough)",
    "2k/80k generated well-typed programs with the features a formatter can lose turned up (grouping that overrides precedence at every level pair, hidden/as/limit, tiny bucket bounds, integral float literals, escaped strings and regexes, const fragments, decorators, del after): formatted output must parse and check, have the same normalised AST, and be a fixed point of formatting; thorough also runs the built cmd/mfmt on a sample.",
    "Normaliser ignores positions/types/symbols, treats ConvExpr / implicit MATCH / empty index lists as transparent. Quoted metric names and keys are not generated.", "§4 C23"),
+ "C24": ("exploration", "defect-by-construction mutation monitor over the real compiler and Runtime loader",
+   "120/4000 base programs x every defect operator (undeclared metric, $k beyond groups, unknown $name, sibling-pattern capture, undefined decorator, next outside decorator, key too many/few, redeclared, unused declaration incl. nested and hidden, invalid regexes, regex over default/custom limits, Int / and % by literal 0) at every eligible site (~13k / ~430k mutants): each must be rejected with an error whose position lies inside the source; a sample is loaded through Runtime.CompileAndRun with the line hook verifying no VM runs and the load-error counter moves.",
+   "Defect classes are guaranteed by how each operator is built; positions parsed from the error text.", "§4 C24"),
 }
 NOT_APPLICABLE = {}
 
